@@ -25,6 +25,9 @@ class Ctx:
         self.assumptions = []
         self.notes = []
         self._fb_cache = {}
+        # self-tests analyse a scratch copy (--root): their evidence must never overwrite the real one
+        self.evdir = os.path.join(VERIF, 'evidence') if os.path.abspath(self.root) == '/repo' else \
+            os.path.join('/tmp', 'yaclib_verif_selftest', 'evidence')
         self.seed = int(os.environ.get('VERIF_SEED', '0') or 0)
 
     # ---- facts
@@ -100,7 +103,7 @@ class Ctx:
         for rep, e in knownhits:
             print('%s: [%s] %s: %s' % (rep['where'], rep['rule'], rep['key'], rep['msg']))
             print('KNOWN-FINDING: property=%s %s %s: %s' % (self.prop, e['id'], rep['key'], e['what']))
-        rdir = os.path.join(VERIF, 'evidence', 'replay')
+        rdir = os.path.join(self.evdir, 'replay')
         os.makedirs(rdir, exist_ok=True)
         # remove stale replay files of this property
         for f in os.listdir(rdir):
@@ -148,6 +151,6 @@ class Ctx:
                 analysis_broken=broken),
             assumptions=self.assumptions or ['clang 14 front end is faithful to the build compilers for this code'],
             wall_s=round(time.time() - self.t0, 2), violations=nviol)
-        os.makedirs(os.path.join(VERIF, 'evidence'), exist_ok=True)
-        with open(os.path.join(VERIF, 'evidence', self.prop + '.json'), 'w') as f:
+        os.makedirs(self.evdir, exist_ok=True)
+        with open(os.path.join(self.evdir, self.prop + '.json'), 'w') as f:
             json.dump(ev, f, indent=1, default=str)
